@@ -298,7 +298,7 @@ def check_chronological_input(rep: Report, rule: str) -> None:
                 from .loader import enclosing_class as _ec, enclosing_function as _ef2
 
                 f, c = _ef2(bad), _ec(bad)
-                rep.violation(rule, mod.name, f"{c.name}.{f.name}" if c and f else (f.name if f else "<module>"), f"entry list reordered outside the timestamp sort: {short(bad, 80)}", f"{short(bad, 100)} reorders or replaces an entry set's list in addition to AbstractEntrySet._sort_entries (stable sort by timestamp): entries with equal timestamps are then no longer in insertion (row) order, and the order of the lot list no longer agrees with the lot index keys (timestamp, zero-padded id) that bound a disposal's candidates", loc(bad))
+                rep.violation(rule, mod.name, f"{c.name}.{f.name}" if c and f else (f.name if f else "<module>"), f"entry list reordered outside the timestamp sort: {short(bad, 80)}", f"{short(bad, 100)} reorders or replaces an entry set's list in addition to AbstractEntrySet._sort_entries (stable sort by timestamp): entries with equal timestamps are then no longer in insertion (row) order, and the order of the lot list no longer agrees with the lot index keys (timestamp, zero-padded id) that bound a disposal's candidates", loc(bad), definite=True)
     for sub in prog.subclasses(base, strict=True):
         ov = sub.methods.get("_sort_entries")
         if ov is None:
@@ -306,7 +306,7 @@ def check_chronological_input(rep: Report, rule: str) -> None:
         stmts = [st for st in ov.body if not norm._is_noise(st)]  # logging / declarations do not matter
         first = stmts[0] if stmts else None
         calls_super_first = first is not None and unparse(first) == "super()._sort_entries()"
-        rep.check(calls_super_first, rule, ov.module, ov.qualname, f"{sub.name}._sort_entries starts with super()._sort_entries()", f"{ov.qualname} overrides the sort of the entry list without calling the base sort first: iteration order of this set is not the time order the engine relies on", loc(ov.node))
+        rep.check(calls_super_first, rule, ov.module, ov.qualname, f"{sub.name}._sort_entries starts with super()._sort_entries()", f"{ov.qualname} overrides the sort of the entry list without calling the base sort first: iteration order of this set is not the time order the engine relies on", loc(ov.node), definite=True)
 
 
 # ---------------------------------------------------------------------------
